@@ -98,6 +98,14 @@ pub struct Options {
     pub structs: Vec<String>,
     /// structs with one field that are represented by that field (`ComponentAccess { cases }` is the list of cases)
     pub transparent: Vec<String>,
+    /// containers with keyed elements: (`SparseMap`, Lean getter `m k : Option v`, Lean setter `m k v : m`); the element type
+    /// is the last type argument
+    pub maps: Vec<(String, String, String)>,
+    /// containers iterated by `for (k, v) in &mut c`: (`Slab`, Lean map `c (fun k v => v)`, Lean map with state
+    /// `c s (fun k v s => (v, s)) : c × s`)
+    pub iter_muts: Vec<(String, String, String)>,
+    /// enums defined in another file: (`EventId`, `Global(GlobalEventIdx)|Targeted(TargetedEventIdx)`)
+    pub enums: Vec<(String, String)>,
     /// type names that are blocks of bits: (`Block`, 64) — `BitVec 64` with `&&& ||| ^^^ ~~~ <<< >>>`
     pub bits: Vec<(String, u32)>,
 }
@@ -127,6 +135,8 @@ enum Ty {
     Cell(Box<Ty>),
     /// a block of bits (`--bits Block=64`): `BitVec w`
     Bits(u32),
+    /// a `--map` container with values of type `val`
+    Map { rust: String, lean: String, val: Box<Ty> },
     /// an iterator over a list (`v.iter()`, and what `chain` / `map` / `cloned` make of it): the list
     Iter(Box<Ty>),
     Phantom,
@@ -141,7 +151,7 @@ impl Ty {
             Ty::Bool => "Bool".into(),
             Ty::Bits(w) => format!("BitVec {w}"),
             Ty::Unit | Ty::Phantom | Ty::Unknown => "Unit".into(),
-            Ty::Named { lean, .. } => lean.clone(),
+            Ty::Named { lean, .. } | Ty::Map { lean, .. } => lean.clone(),
             Ty::Vec(t) | Ty::Iter(t) => format!("List {}", paren_ty(&t.lean())),
             Ty::Opt(t) | Ty::Cell(t) => format!("Option {}", paren_ty(&t.lean())),
             Ty::Tuple(ts) => ts.iter().map(|t| paren_ty(&t.lean())).collect::<Vec<_>>().join(" × "),
@@ -230,6 +240,8 @@ struct Borrow {
     idx: String,
     /// the Lean term the borrow was created as (guards the side channel `last_borrow`)
     value: String,
+    /// how the element is written back (`vecSet` for a Vec; the setter of a `--map` container)
+    setter: String,
 }
 
 #[derive(Clone, Debug)]
@@ -357,6 +369,8 @@ struct Sig {
     has_panic: bool,
     /// number of `&mut` parameters besides `self`
     mut_params: usize,
+    /// their positions among the parameters
+    mut_idx: Vec<usize>,
     /// `-> &mut T`: (path of the Vec field of `self` the borrow points into, element type); the result is the index
     ret_borrow: Option<(Vec<String>, Ty)>,
     lean: String,
@@ -422,6 +436,10 @@ struct Tr<'a> {
     deferred_tys: BTreeMap<String, Ty>,
     /// `&mut` parameters of a struct type (state, like `self` of a `&mut self` method)
     mut_params: Vec<String>,
+    /// positions of the `&mut` parameters of the current function
+    mut_idx: Vec<usize>,
+    /// arguments of the call being translated that are passed as `&mut` state (positions): set by the caller of `mut_call`
+    call_mut_idx: Vec<usize>,
     /// inside the body of a `for` loop: (the loop's state variables, can the body panic)
     loop_ctx: Option<(Vec<String>, bool)>,
     /// some `if`/`match` statement returns a tuple of state variables (a component may go unused afterwards)
@@ -649,6 +667,16 @@ impl<'a> Tr<'a> {
                                 _ => Ty::Cell(Box::new(inner)),
                             });
                         }
+                        if self.opts.maps.iter().any(|(n, _, _)| *n == name) {
+                            let val = match ab.args.last() {
+                                Some(syn::GenericArgument::Type(t)) => self.ty(t)?,
+                                _ => return self.unsupported(t.span(), "type argument"),
+                            };
+                            return match self.named(&name) {
+                                Some(Ty::Named { rust, lean, .. }) => Ok(Ty::Map { rust, lean, val: Box::new(val) }),
+                                _ => self.err(t.span(), format!("no Lean type given for the Rust type `{name}` (use --type {name}=<LeanType>)")),
+                            };
+                        }
                         // a generic struct of the file: the Lean type given for its name stands for every instance
                         match self.named(&name) {
                             Some(nt) => {
@@ -742,6 +770,26 @@ impl<'a> Tr<'a> {
     /// the variants of a fieldless enum defined in the same file
     /// the variants of an enum defined in the same file, each with the types of its (unnamed) fields
     fn enum_variants(&self, rust: &str) -> Option<Result<Vec<(String, Vec<Type>)>, String>> {
+        // declared by --enum (an enum of another file)
+        if let Some((_, decl)) = self.opts.enums.iter().find(|(n, _)| n == rust) {
+            let mut vs = vec![];
+            for v in decl.split('|') {
+                let v = v.trim();
+                let (name, fields) = match v.split_once('(') {
+                    Some((n, rest)) => (n.trim().to_string(), split_top(rest.trim_end_matches(')'))),
+                    None => (v.to_string(), vec![]),
+                };
+                let mut tys = vec![];
+                for f in fields {
+                    match syn::parse_str::<Type>(&f) {
+                        Ok(t) => tys.push(t),
+                        Err(_) => return Some(Err(format!("--enum {rust}: cannot parse the type `{f}`"))),
+                    }
+                }
+                vs.push((name, tys));
+            }
+            return Some(Ok(vs));
+        }
         for it in &self.file.items {
             if let Item::Enum(e) = it {
                 if e.ident == rust {
